@@ -1147,6 +1147,15 @@ func main() {
 	if lines := o.ReplayLines(); lines != nil {
 		var jobs []job
 		for _, l := range lines {
+			if f := strings.Fields(l); len(f) == 3 && f[0] == "SYSF" {
+				for _, r := range sysFaultScenario(common.Atou(f[1]), common.Atoi(f[2]), filepath.Join(o.Out, "sysf")) {
+					out.Case(r.line, r.ans, true)
+					for _, fl := range r.fails {
+						out.Fail(fl[0], fl[1], l)
+					}
+				}
+				continue
+			}
 			jobs = append(jobs, jobOf(l))
 		}
 		runAll(jobs, 256)
@@ -1263,6 +1272,7 @@ func main() {
 		jobs = append(jobs, jobOf(l))
 	}
 	runAll(jobs, 6000)
+	runSysFaults(o) // system level: transient faults injected into real tier2 jobs of real requests
 
 	// what the back-off looked like (runtime behaviour, reported, not part of the model)
 	var idx []int
